@@ -178,6 +178,19 @@ def check_worker_exit(rep, fl, rule="R12.3"):
             rep.bad(rule, fl, sp, "stop arm", "the worker loop of %s never receives from its stop channel: it cannot be stopped" % short(proc))
             continue
         rs = [(bi, t) for bi, t, ch in recv_sites(loop) if ch == norm(F(V("self"), stopfield))]
+        # the stop request is taken in the loop's stop arm and nowhere else: a handler that receives (or polls) the stop
+        # channel itself completes the closer's rendezvous / takes its message, close() returns, and the loop - which
+        # never sees the request - keeps running
+        others = []
+        for x in facts.bodies:
+            if x is loop or not user_code(x) or not strip_generics(x.raw["root"]).startswith(proc + "::"):
+                continue
+            for bi_, t_, ch_ in recv_sites(x):
+                if ch_ == norm(F(V("self"), stopfield)):
+                    others.append((x, t_))
+        rep.check(not others, rule, fl, loop, "stop taken in the stop arm only", "the stop channel of %s is received from in the worker loop's stop arm only" % short(proc),
+                  "the stop channel is also received from in %s: a stop request taken there is gone when the loop selects again - close() has returned and the worker keeps running" % sorted({short(x.spath) for x, _ in others}),
+                  loc=others[0][1]["sp"] if others else None)
         if fl.name == "sync":
             # SelectedOperation::recv(oper, &stop_rx) must not be in a cycle: it is followed by return whatever the result
             bi, t = rs[-1]
@@ -776,6 +789,10 @@ def check_C10(rep, fl):
     # "(or discarded by a concurrent clear())": only by a concurrent one - clear() returns when the clear is over, so
     # an insert issued after it is not swallowed by that clear's drain or resets
     props_store.keep_rules(rep, fl, check_clear, {"R11.1"}, rename="R10.2")
+    # "every insert .. has been fully applied": the caller-side store update reports each outcome for its own cause (an
+    # entry that is there is updated in place, not sent through admission again - where the policy, which still
+    # tracks it, would turn it away)
+    props_store.check_store_writes(rep, fl, prop="C10")
 
 
 # ----------------------------------------------------------------------------------------
